@@ -6,6 +6,7 @@ pub enum Kind {
     Fixed,
     Bump,
     Mut,
+    Rev,
 }
 
 impl Kind {
@@ -15,6 +16,7 @@ impl Kind {
             Kind::Fixed => "fixed",
             Kind::Bump => "bump",
             Kind::Mut => "mut",
+            Kind::Rev => "rev",
         }
     }
 }
@@ -115,7 +117,7 @@ impl Ctx {
 
     pub fn gen_spec(&mut self, nops: usize) -> Spec {
         self.next_id = 1;
-        let kind = *self.rng.pick(&[Kind::Boxed, Kind::Fixed, Kind::Fixed, Kind::Bump, Kind::Bump, Kind::Mut]);
+        let kind = *self.rng.pick(&[Kind::Boxed, Kind::Fixed, Kind::Fixed, Kind::Bump, Kind::Bump, Kind::Mut, Kind::Rev]);
         let zst = self.rng.chance(1, 6);
         let settings = self.rng.below(4) as u8;
         let len = match self.rng.below(10) {
@@ -153,6 +155,9 @@ impl Ctx {
         let mut choices: Vec<u8> = vec![0, 0, 0, 1, 1, 2, 3, 4, 5, 6, 11, 11, 11, 12, 12, 13, 14];
         if kind != Kind::Boxed {
             choices.extend_from_slice(&[7, 7, 7, 8, 8, 9, 9, 10, 10, 15, 15]);
+        }
+        if kind == Kind::Rev {
+            choices = vec![2, 3, 4, 4, 5, 5, 6, 6, 7, 7, 7, 8, 8, 8, 9, 9, 10, 10, 13, 15, 15];
         }
         let c = *self.rng.pick(&choices);
         let mut oracle = Vec::new();
@@ -438,7 +443,7 @@ impl Ctx {
                         self.oracle("C08", format!("fixed `{optext}`: the buffer moved"));
                     }
                 }
-                Kind::Bump | Kind::Mut => {
+                Kind::Bump | Kind::Mut | Kind::Rev => {
                     if fits && !zst && !gone && !consuming && (post_cap != pre_cap || (post_addr != pre_addr && pre_cap != 0)) {
                         self.oracle("C08", format!("{} `{optext}`: reallocated although len {pre_len} + {additional} <= capacity {pre_cap} (capacity {pre_cap} -> {post_cap}, address {pre_addr:#x} -> {:#x})", spec.kind.tok(), post_addr));
                     }
@@ -450,7 +455,7 @@ impl Ctx {
             let clean = !step.oracle.contains(&Oc::Panic) && step.bombs.is_empty();
             if clean {
                 let mut sv = pre.clone();
-                let expected = std_apply(&mut sv, &step.op, &step.oracle);
+                let expected = if spec.kind == Kind::Rev { std_apply_rev(&mut sv, &step.op, &step.oracle) } else { std_apply(&mut sv, &step.op, &step.oracle) };
                 let fixed_full = spec.kind == Kind::Fixed && !zst && !fits;
                 match expected {
                     Err(()) => {
@@ -591,6 +596,14 @@ macro_rules! run_with_settings {
                 Kind::Mut => {
                     let mut v: MutBumpVec<T, &mut Bump<Global, $S>> = MutBumpVec::with_capacity_in(spec.cap, &mut bump);
                     for i in &spec.ids {
+                        v.push(T::make(*i));
+                    }
+                    Box::new(v)
+                }
+                Kind::Rev => {
+                    let mut v: MutBumpVecRev<T, &mut Bump<Global, $S>> = MutBumpVecRev::with_capacity_in(spec.cap, &mut bump);
+                    // pushes go to the front: insert back to front to obtain `ids` in order
+                    for i in spec.ids.iter().rev() {
                         v.push(T::make(*i));
                     }
                     Box::new(v)
